@@ -79,7 +79,7 @@ def run_case(ctx, i, rng):
     n = gen_ir.generate(rng, profile="flatten", share=0.6, ndefs=rng.randint(3, 9), max_children=rng.choice([2, 3, 4]),
                         outside=(i % 4 == 0))
     uniquify(n)
-    e0 = Elab(n, max_occ=4000)
+    e0 = Elab(n, max_occ=2500)
     if e0.truncated:
         ctx.count("discarded_too_large")
         return
@@ -101,7 +101,7 @@ def run_case(ctx, i, rng):
 
     def post(label, a, k, r, e):
         hook_state["n"] += 1
-        if hook_state["bad"] is None and hook_state["n"] % 5 == 0:
+        if hook_state["bad"] is None and hook_state["n"] % max(5, u.size() // 100) == 0:
             with budget.paused():
                 u.close()
                 errs = wf.check_c01(u) + wf.check_c02(u)
